@@ -101,6 +101,9 @@ type gen struct {
 	relayQ   []sdk.Msg // relay messages for the next block
 	vlists   [][2]string // validatorList(missed) probes: op line, observation
 	unrelayed, timedOut []channeltypes.Packet // sent packets that are never delivered / were timed out already
+	nHostile int            // forged acknowledgements so far
+	hostileQ []hostileRelay // forged acknowledgements (counterparty commitment + relay message) for the next block
+	acks     [][2]string    // (op line, observation) of direct OnAcknowledgementPacket probes
 
 	seq          map[string]uint64
 	pend         []pendingTx
@@ -409,6 +412,7 @@ func (g *gen) endBlock(dt time.Duration, note string) detx.Obs {
 	if g.c.Height > 0 {
 		g.ibcHandshake()
 		g.flushRelay()
+		g.flushHostile()
 	}
 	for k := g.rng.Intn(3); k > 0 && g.c.Height > 0; k-- { // background traffic
 		from := g.anyUser()
@@ -435,7 +439,7 @@ func (g *gen) endBlock(dt time.Duration, note string) detx.Obs {
 	if g.c.Height > 0 {
 		b.Inject = g.inj
 	}
-	o := g.c.RunBlock(b)
+	o := runBlock(g.c, b)
 	for i, r := range o.InjectRes {
 		short := r
 		if j := strings.IndexByte(short, ':'); j > 0 && !strings.HasPrefix(short, "vmerror") {
@@ -746,7 +750,13 @@ func (g *gen) run() {
 		if g.rng.Intn(4) == 0 {
 			target = hex.EncodeToString([]byte("erc20"))
 		}
-		if target != "" {
+		ibcTarget := false
+		if g.ibcOpen() && (k == 0 || g.rng.Intn(3) == 0) { // the deposit is forwarded over IBC (crosschain -> ICS-20 transfer; relative timeout)
+			target = hex.EncodeToString([]byte("fx/" + ibcPort + "/channel-" + fmt.Sprint(g.rng.Intn(2))))
+			ibcTarget = true
+			g.out.Count("send-to-fx:ibc-target")
+		}
+		if target != "" && !ibcTarget {
 			g.erc20Holders = append(g.erc20Holders, [2]string{contractAddr, fmt.Sprint(k % len(g.users))})
 		}
 		sender := g.ext[g.rng.Intn(len(g.ext))]
@@ -835,6 +845,7 @@ func (g *gen) run() {
 	g.ibcTraffic(1 + g.rng.Intn(3))
 	g.endBlock(short, "evm precompiles")
 	g.probeValidatorList()
+	g.probeAcks()
 
 	// ---- phase 6: power changes -> oracle set requests through the PowerDiff path
 	g.tx(g.oracles[1], &crosschaintypes.MsgAddDelegate{ChainName: ethChain, OracleAddress: g.oracles[1].Addr(), Amount: fx(int64(1 + g.rng.Intn(200)))})
@@ -1154,6 +1165,7 @@ func (g *gen) run() {
 	g.tx(from, banktypes.NewMsgSend(from.Acc(), g.anyUser().Acc(), sdk.NewCoins(fxFrac(5))))
 	g.endBlock(short, "final")
 	g.probeValidatorList()
+	g.probeAcks()
 	ctx := g.c.Ctx()
 	online, offline := 0, 0
 	for _, o := range eth.GetAllOracles(ctx, false) {
